@@ -304,7 +304,7 @@ PROPS = {
         "title": "File views agree and file operations carry the whole file",
         "level": "exploration",
         "rule": "rapid state machine against a reference namespace model: random initial tree (files with content, some with a stored resource "
-                "fork, a stored info fork with comment and custom type, or partial .incomplete data; folders to depth 3) under one of 6 "
+                "fork, a stored info fork with comment and custom type, or partial .incomplete data; folders to depth 3) under one of 8 "
                 "ignore-pattern sets, then new-folder (fresh or over an existing entry), rename, move, delete, set-comment, make-alias (incl. "
                 "alias chains and dangling aliases) and 'leave a partial upload' through the protocol; names from the Mac-Roman-representable "
                 "set incl. 244/253/254/255-byte names and names containing '.incomplete', '.info_', '.rsrc_', '.bak', 'secret', '@'; after "
@@ -313,7 +313,7 @@ PROPS = {
                 "(list size == info size == download size == bytes on disk, list type == info type, comment), and the on-disk tree incl. "
                 ".info_/.rsrc_/.incomplete side files == model; TestC11Burst: 2-8 clients ask for the list, get-info or a download of different files "
                 "(distinct sizes 0..70000) at the same instant for 5-20 rounds, every answer must carry the size of the file it is about; "
-                "non-trivial = a mutating action on an entry that has side files followed by a view check, every burst; distinct = hash(history, ignore set)",
+                "non-trivial = a mutating action on an entry that has side files followed by a view check, every burst; distinct = hash(history, ignore set); two of the ignore sets hold a pattern with an inline case-insensitivity flag (which must not spread to the other patterns) and a pattern that is not a regular expression (which matches nothing while the others still apply)",
         "assumptions": ["rename/move onto an existing name, rename/move of partial uploads and of aliases, set-comment on folders are excluded (outside the statement); counted in excluded_by_construction",
                         "a mutating request that changes the tree as requested but gets no reply (names whose side-file names exceed 255 bytes) is tolerated and counted"],
         "quick": {"runs": [{"test": "^TestC11$", "shards": 13, "checks": 80, "timeout": 600},
